@@ -86,3 +86,16 @@ let rec jdoc_to_string_p (keep : bool) (d : M.jdoc) : string =
       let m = if keep then m else List.stable_sort (fun (a, _) (b, _) -> cmp_str a b) m in
       "o(" ^ String.concat "," (List.map (fun (k, v) -> "[" ^ ints_of_str k ^ "]:" ^ jdoc_to_string_p (k = str_of_string "properties") v) m) ^ ")"
 let jdoc_to_string (d : M.jdoc) : string = jdoc_to_string_p false d
+
+(* canonical printing of JSON values (members sorted) *)
+let rec json_to_string (j : M.json) : string =
+  match j with
+  | M.JNull -> "null"
+  | M.JBool true -> "t"
+  | M.JBool false -> "f"
+  | M.JNum x -> "n" ^ q_to_string x
+  | M.JStr s -> "s[" ^ ints_of_str s ^ "]"
+  | M.JArr l -> "a(" ^ String.concat "," (List.map json_to_string l) ^ ")"
+  | M.JObj m ->
+      let m = List.stable_sort (fun (a, _) (b, _) -> cmp_str a b) m in
+      "o(" ^ String.concat "," (List.map (fun (k, v) -> "[" ^ ints_of_str k ^ "]:" ^ json_to_string v) m) ^ ")"
